@@ -496,6 +496,11 @@ func genRandom(s *scen, size int) {
 			i = ready[g.Intn(len(ready))]
 		}
 		b := pending[i]
+		if s.gTwin.Chance(1, 5) {
+			// the same block with a previous-block field that shares only the BlockIndex key with its parent's hash
+			// (parent delivered or not, on the tip or on a side branch)
+			s.deliverPrefixTwin(b, s.gTwin.Intn(4))
+		}
 		out := s.deliver(b)
 		if out != "later" {
 			b.delivered = true
